@@ -366,7 +366,8 @@ def _is_negative_constant(term: Any) -> bool:
         isinstance(term, ValueWrapper)
         and isinstance(value, (int, float, Decimal))
         and not isinstance(value, bool)
-        and value < 0
+        # -0.0 is not < 0 but is written with its sign
+        and (value < 0 or str(value).startswith("-"))
     )
 
 
